@@ -836,7 +836,9 @@ func TestVerif_C15_TwoLocalAddresses(t *testing.T) {
 			case <-time.After(10 * time.Second):
 			}
 		}()
-		locals := []net.IP{net.IPv4(10, 0, 0, 1), net.IPv4(10, 0, 0, 2)}
+		// two IPv4 addresses and one IPv6 address: the family of a connection is that of the client's address
+		locals := []net.IP{net.IPv4(10, 0, 0, 1), net.IPv4(10, 0, 0, 2), net.ParseIP("fd00::1")}
+		v6 := func(l int) bool { return locals[l].To4() == nil }
 		ufrags := []string{"ua", "ub"}[:rapid.IntRange(1, 2).Draw(rt, "ufrags")]
 		type key struct {
 			u string
@@ -846,23 +848,23 @@ func TestVerif_C15_TwoLocalAddresses(t *testing.T) {
 		under := map[key]*tcpPacketConn{}
 		for _, u := range ufrags {
 			for l := range locals {
-				h, err := mux.GetConnByUfrag(u, false, locals[l])
+				h, err := mux.GetConnByUfrag(u, v6(l), locals[l])
 				if err != nil {
 					rt.Fatalf("harness: %v", err)
 				}
 				handles[key{u, l}] = h
 				mux.mu.Lock()
-				under[key{u, l}], _ = mux.getConn(u, false, locals[l])
+				under[key{u, l}], _ = mux.getConn(u, v6(l), locals[l])
 				mux.mu.Unlock()
 			}
 		}
 		port := 31000
 		var hist []string
-		closedOne := false
+		closedOne, usedV6 := false, false
 		nOps := rapid.IntRange(2, 12).Draw(rt, "nOps")
 		for i := 0; i < nOps; i++ {
 			u := ufrags[rapid.IntRange(0, len(ufrags)-1).Draw(rt, "ufrag")]
-			l := rapid.IntRange(0, 1).Draw(rt, "local")
+			l := rapid.IntRange(0, len(locals)-1).Draw(rt, "local")
 			k := key{u, l}
 			switch rapid.SampledFrom([]string{"connect", "connect", "close", "reopen", "removeAndReopen"}).Draw(rt, "op") {
 			case "removeAndReopen":
@@ -870,10 +872,13 @@ func TestVerif_C15_TwoLocalAddresses(t *testing.T) {
 				mux.RemoveConnByUfrag(u)
 				for ll := range locals {
 					kk := key{u, ll}
+					if handles[kk] != nil && under[kk] != nil && !under[kk].isClosed() {
+						st.Fail(rt, "C15/two-locals/remove-left-a-connection", "after RemoveConnByUfrag(%s) the packet connection of %s@%s is still open (%s)", u, u, locals[ll], strings.Join(hist, "; "))
+					}
 					if handles[kk] != nil {
 						_ = handles[kk].Close()
 					}
-					h, err := mux.GetConnByUfrag(u, false, locals[ll])
+					h, err := mux.GetConnByUfrag(u, v6(ll), locals[ll])
 					if err != nil {
 						st.Fail(rt, "C15/two-locals/reopen-failed", "GetConnByUfrag(%s, %s) right after RemoveConnByUfrag: %v (%s)", u, locals[ll], err, strings.Join(hist, "; "))
 
@@ -881,7 +886,7 @@ func TestVerif_C15_TwoLocalAddresses(t *testing.T) {
 					}
 					handles[kk] = h
 					mux.mu.Lock()
-					under[kk], _ = mux.getConn(u, false, locals[ll])
+					under[kk], _ = mux.getConn(u, v6(ll), locals[ll])
 					mux.mu.Unlock()
 				}
 				closedOne = true
@@ -900,7 +905,7 @@ func TestVerif_C15_TwoLocalAddresses(t *testing.T) {
 				if handles[k] != nil {
 					continue
 				}
-				h, err := mux.GetConnByUfrag(u, false, locals[l])
+				h, err := mux.GetConnByUfrag(u, v6(l), locals[l])
 				if err != nil {
 					st.Fail(rt, "C15/two-locals/reopen-failed", "GetConnByUfrag(%s, %s) after an earlier close: %v (%s)", u, locals[l], err, strings.Join(hist, "; "))
 
@@ -908,7 +913,7 @@ func TestVerif_C15_TwoLocalAddresses(t *testing.T) {
 				}
 				handles[k] = h
 				mux.mu.Lock()
-				under[k], _ = mux.getConn(u, false, locals[l])
+				under[k], _ = mux.getConn(u, v6(l), locals[l])
 				mux.mu.Unlock()
 				hist = append(hist, fmt.Sprintf("reopen(%s@%s)", u, locals[l]))
 			case "connect":
@@ -916,7 +921,7 @@ func TestVerif_C15_TwoLocalAddresses(t *testing.T) {
 					continue // (clients of an unregistered ufrag get a provisional connection: the main test's business)
 				}
 				mux.mu.Lock()
-				cur, ok := mux.getConn(u, false, locals[l])
+				cur, ok := mux.getConn(u, v6(l), locals[l])
 				mux.mu.Unlock()
 				if !ok || cur != under[k] {
 					st.Fail(rt, "C15/two-locals/held-connection-replaced", "the packet connection of %s@%s is no longer the one its open handle was given (registered=%v) (%s)", u, locals[l], ok, strings.Join(hist, "; "))
@@ -926,6 +931,10 @@ func TestVerif_C15_TwoLocalAddresses(t *testing.T) {
 				a, b := net.Pipe()
 				port++
 				remote := &net.TCPAddr{IP: net.IPv4(198, 51, 100, 9), Port: port}
+				if v6(l) {
+					remote = &net.TCPAddr{IP: net.ParseIP("2001:db8::9"), Port: port}
+					usedV6 = true
+				}
 				cl := &c15Client{id: len(clients), conn: a, remote: remote, kind: "valid", ufrag: u, done: make(chan struct{})}
 				go cl.reader()
 				clients = append(clients, cl)
@@ -948,8 +957,26 @@ func TestVerif_C15_TwoLocalAddresses(t *testing.T) {
 				}
 			}
 		}
+		// Close closes every packet connection it still owns, of both families, and every TCP connection
+		closeDone := make(chan struct{})
+		go func() { _ = mux.Close(); close(closeDone) }()
+		select {
+		case <-closeDone:
+			for kk, h := range handles {
+				if h != nil && under[kk] != nil && !under[kk].isClosed() {
+					st.Fail(rt, "C15/two-locals/close-left-a-connection", "after Close of the mux the packet connection of %s@%s is still open (%s)", kk.u, locals[kk.l], strings.Join(hist, "; "))
+				}
+			}
+			for _, c := range clients {
+				if !c.closedByPeer(5 * time.Second) {
+					st.Fail(rt, "C15/two-locals/close-left-a-tcp-connection", "after Close of the mux the TCP connection of client %s is still open (%s)", c.remote, strings.Join(hist, "; "))
+				}
+			}
+		case <-time.After(20 * time.Second):
+			st.Fail(rt, "C15/two-locals/close-hangs", "Close of the mux did not return within 20 s (%s)", strings.Join(hist, "; "))
+		}
 		desc := strings.Join(hist, "; ")
-		st.Record(vfHashStr(desc), closedOne, fmt.Sprintf("closed-one-address:%v", closedOne))
+		st.Record(vfHashStr(desc), closedOne, fmt.Sprintf("closed-one-address:%v", closedOne), fmt.Sprintf("ipv6-client:%v", usedV6))
 		if closedOne && st.WantSample() {
 			st.Sample(func() string { return desc })
 		}
